@@ -173,7 +173,11 @@ def run(rep):
         for k, v in r["classes"].items():
             t["classes"][k] = t["classes"].get(k, 0) + v
         for v in r["violations"]:
-            rep.fail("not-contained:" + what, "%s mutant %s: %s" % (what, v["mutant"], v["why"]), {"sweep": what, "mutant": v["mutant"]})
+            cls = "not-contained:" + what
+            if what == "idx" and (v["why"].startswith("get_raw(") or v["why"].startswith("iterobjects_subset yields")):
+                # the recorded finding, met in the sweep: the offset table of the index is trusted by the raw read paths
+                cls = "corpus:get-raw-trusts-damaged-index"
+            rep.fail(cls, "%s mutant %s: %s" % (what, v["mutant"], v["why"]), {"sweep": what, "mutant": v["mutant"]})
         if r.get("violations_more"):
             rep.note("%d further violations in sweep %s" % (r["violations_more"], what))
     for what, t in totals.items():
